@@ -11,7 +11,7 @@ pub fn props() -> Vec<Prop> {
         id: "C05",
         run: c05,
         tools: Some(no_io_trace),
-        rule: "oracle 1: Memfs::abs under every cwd of a bounded tree and Stdfs::abs under the matching process cwd are compared with a string-level reference (expand, trim protocol, Go-clean, resolve leading '..' against the cwd) for every string up to length 6 (quick) / 8 (thorough) over {/ . ~ $ : a e-acute}, scheme-prefixed variants and seeded random longer strings, with HOME in {/h, /h/e-acute, /} (one value per worker process); the result must be absolute, free of '.', '..', '//' and trailing '/', idempotent, and equal on both backends. oracle 2 (spelling independence): for prepared states x every path-taking method x every spelling of the argument (relative to the cwd, ./x, x/, x/., doubled separator, x/../x, file://, ~, $HOME, ${HOME}) the call on one instance and the call with abs(argument) on an identical instance must give equal results and equal complete states - Memfs through the hook snapshot, Stdfs through the disk observer. oracle 3 (no IO): strace -e trace=%file of a child that brackets 10^4 abs() calls per backend between marker syscalls; nothing may appear between the markers (getcwd is allowed for the real backend only in the section whose inputs are relative; a third section holds only absolute, ~, $HOME and scheme-prefixed inputs); the same child then removes its own working directory and the absolute inputs must still give what the in-memory backend gives, / must still exist and set_cwd must lead out. distinct_nontrivial = distinct (backend, cwd, string class, outcome class) tuples + (method, spelling kind).",
+        rule: "oracle 1: Memfs::abs under every cwd of a bounded tree and Stdfs::abs under the matching process cwd are compared with a string-level reference (expand, trim protocol, Go-clean, resolve leading '..' against the cwd) for every string up to length 6 (quick) / 8 (thorough) over {/ . ~ $ : a e-acute}, scheme-prefixed variants and seeded random longer strings, with HOME in {/h, /h/e-acute, /} (one value per worker process) and a fixed list of home-shortcut and $HOME spellings under HOME values that are not clean absolute paths themselves (trailing separator, inner .., relative, scheme-prefixed); the result must be absolute, free of '.', '..', '//' and trailing '/', idempotent, and equal on both backends. oracle 2 (spelling independence): for prepared states x every path-taking method x every spelling of the argument (relative to the cwd, ./x, x/, x/., doubled separator, x/../x, file://, ~, $HOME, ${HOME}) the call on one instance and the call with abs(argument) on an identical instance must give equal results and equal complete states - Memfs through the hook snapshot, Stdfs through the disk observer. oracle 3 (no IO): strace -e trace=%file of a child that brackets 10^4 abs() calls per backend between marker syscalls; nothing may appear between the markers (getcwd is allowed for the real backend only in the section whose inputs are relative; a third section holds only absolute, ~, $HOME and scheme-prefixed inputs); the same child then removes its own working directory and the absolute inputs must still give what the in-memory backend gives, / must still exist and set_cwd must lead out. distinct_nontrivial = distinct (backend, cwd, string class, outcome class) tuples + (method, spelling kind).",
         assumptions: &["non-UTF-8 paths are outside 'every non-empty path string'", "strings whose variable name is not delimited unambiguously are not judged", "'no IO' is decided on the syscall trace of the workload that ran"],
         shards_quick: 8,
         shards_thorough: 16,
@@ -56,7 +56,7 @@ fn well_formed(a: &str) -> bool {
     a.starts_with('/') && (a == "/" || (!a.ends_with('/') && !a.contains("//") && !a.split('/').any(|c| c == "." || c == "..")))
 }
 
-fn c05_strings(ctx: &Ctx, rep: &mut Report, home: &str, sroot: &str) {
+fn c05_strings(ctx: &Ctx, rep: &mut Report, home: &str, sroot: &str, only: Option<&[&str]>) {
     let env: Env = [("HOME".to_string(), home.to_string())].into_iter().collect();
     // Memfs instance with every cwd we use; the Stdfs side uses real directories of the same names
     let cwds_virtual = ["/", "/a", "/a/b", "/é"];
@@ -133,6 +133,14 @@ fn c05_strings(ctx: &Ctx, rep: &mut Report, home: &str, sroot: &str) {
             }
         }
     };
+    if let Some(list) = only {
+        // a fixed list under this HOME, by every worker (not partitioned)
+        for s in list {
+            check(s, rep);
+            rep.count("home_spelling_checks", 1);
+        }
+        return;
+    }
     for_all_strings(&alpha, max, |i, s| {
         if ctx.mine(i) {
             check(s, rep);
@@ -341,7 +349,15 @@ fn c05(ctx: &Ctx, rep: &mut Report) {
     let home = homes[ctx.shard % homes.len()];
     std::env::set_var("HOME", home);
     let (sb, sroot) = Sandbox::nested("c05");
-    c05_strings(ctx, rep, home, &sroot);
+    c05_strings(ctx, rep, home, &sroot, None);
+    // HOME values that are not themselves clean absolute paths (trailing separator, an inner "..", relative, a
+    // scheme): what comes out of the expansion goes through the same trimming, cleaning and joining as anything
+    // else - also when the argument is the home shortcut by itself
+    let odd_homes = ["/h/", "/x/../h", "rel/d", "/h//é/.", "/", "file:///h"];
+    let odd = odd_homes[ctx.shard % odd_homes.len()];
+    std::env::set_var("HOME", odd);
+    let tilde_inputs = ["~", "~/", "~/.", "~//", "~/a", "~/..", "~/../x", "$HOME", "${HOME}", "${HOME}/", "$HOME/a/..", "./~", "a/../~"];
+    c05_strings(ctx, rep, odd, &sroot, Some(&tilde_inputs));
     std::env::set_var("HOME", HOME);
     let sroot2 = format!("{}/sp", sroot);
     let _ = std::fs::create_dir_all(&sroot2);
